@@ -656,7 +656,8 @@ impl Translator {
                         SolvedType::Float => {
                             self.emit(st, Instr::AddFloat(Reg::Top, Reg::Top, Reg::Top))
                         }
-                        _ => unreachable!(),
+                        // a user type implementing Num
+                        _ => helper(mono, "prelude.Num.add"),
                     },
                     BinaryOperator::Subtract => match arg1_ty {
                         SolvedType::Int => {
@@ -665,7 +666,8 @@ impl Translator {
                         SolvedType::Float => {
                             self.emit(st, Instr::SubFloat(Reg::Top, Reg::Top, Reg::Top))
                         }
-                        _ => unreachable!(),
+                        // a user type implementing Num
+                        _ => helper(mono, "prelude.Num.subtract"),
                     },
                     BinaryOperator::Multiply => match arg1_ty {
                         SolvedType::Int => {
@@ -674,7 +676,8 @@ impl Translator {
                         SolvedType::Float => {
                             self.emit(st, Instr::MulFloat(Reg::Top, Reg::Top, Reg::Top))
                         }
-                        _ => unreachable!(),
+                        // a user type implementing Num
+                        _ => helper(mono, "prelude.Num.multiply"),
                     },
                     BinaryOperator::Divide => match arg1_ty {
                         SolvedType::Int => {
@@ -683,7 +686,8 @@ impl Translator {
                         SolvedType::Float => {
                             self.emit(st, Instr::DivFloat(Reg::Top, Reg::Top, Reg::Top))
                         }
-                        _ => unreachable!(),
+                        // a user type implementing Num
+                        _ => helper(mono, "prelude.Num.divide"),
                     },
                     BinaryOperator::GreaterThan => match arg1_ty {
                         SolvedType::Int => {
@@ -775,7 +779,8 @@ impl Translator {
                         SolvedType::Float => {
                             self.emit(st, Instr::PowFloat(Reg::Top, Reg::Top, Reg::Top))
                         }
-                        _ => unreachable!(),
+                        // a user type implementing Num
+                        _ => helper(mono, "prelude.Num.power"),
                     },
                     BinaryOperator::Format => {
                         let func_def = self.statics.get_free_function_decl("prelude.format_append");
